@@ -17,8 +17,8 @@ import time
 
 from lib import vlib
 
-SETUP_BUILDS = [{"name": "lockx"}, {"name": "c15", "race": True, "test_pkg": "./server"}]
-COQ_TARGETS = ["Race/Properties_C15.v", "Race/Lockset.v", "Race/Tight.v", "Race/Refcount.v", "Race/PsView.v", "Race/Generated_Accesses.v"]
+SETUP_BUILDS = [{"name": "lockx"}, {"name": "c15", "race": True, "test_pkg": "./server"}, {"name": "c15llm", "race": True, "test_pkg": "./llm"}]
+COQ_TARGETS = ["Race/Properties_C15.v", "Race/Generated_Accesses_llm.v", "Race/Lockset.v", "Race/Tight.v", "Race/Refcount.v", "Race/PsView.v", "Race/Generated_Accesses.v"]
 CLASS = "unsynchronised-access"
 SNAPSHOT = os.path.join(vlib.VERIF, "corpus", "C15", "snapshot.json")
 
@@ -112,32 +112,43 @@ def canary(ctx, binp):
         ctx.proof_failures.append({"obligation": "translator self-test (harness/cmd/lockx/testdata/canary)", "detail": detail[-2000:]})
 
 
-def run_lockx(ctx, findings):
+PKGS = [
+    {"pkg": "./server", "args": [], "tag": "", "min": 50, "snapshot": SNAPSHOT},
+    # the llmServer every concurrent request of one model shares (llm/server.go); its methods are called from package server
+    {"pkg": "./llm", "args": ["-pkg", "./llm", "-prefix", "llm.", "-global", "", "-single", ""], "tag": "_llm", "min": 20,
+     "snapshot": os.path.join(vlib.VERIF, "corpus", "C15", "snapshot_llm.json")},
+]
+
+
+def run_lockx(ctx, findings, spec=None):
     """regenerate the table from the current tree; evaluate and re-prove the obligations in Coq. -> table or None"""
+    spec = spec or PKGS[0]
+    server = spec["tag"] == ""
     binp = ctx.go_build("lockx")
     if not binp:
         return None
-    canary(ctx, binp)
-    d = os.path.join(ctx.tmp, "coqrun")
+    if server:
+        canary(ctx, binp)
+    d = os.path.join(ctx.tmp, "coqrun" + spec["tag"])
     os.makedirs(d, exist_ok=True)
     waive = ";".join("%s|%s" % w for w in known_waivers() + benign_waivers())
     jpath, vpath = os.path.join(d, "table.json"), os.path.join(d, "Generated_Accesses.v")
     t = time.time()
-    rc, out = vlib.sh([binp, "-waive", waive, "-json", jpath, "-coq", vpath, vlib.REPO], env=vlib.goenv(), timeout=600, cwd=d)
-    ctx.checker_cmds.append("lockx -json table.json -coq Generated_Accesses.v " + vlib.REPO)
+    rc, out = vlib.sh([binp] + spec["args"] + ["-waive", waive, "-json", jpath, "-coq", vpath, vlib.REPO], env=vlib.goenv(), timeout=600, cwd=d)
+    ctx.checker_cmds.append("lockx %s -json table.json -coq Generated_Accesses.v %s" % (" ".join(spec["args"]), vlib.REPO))
     if rc != 0 or not os.path.exists(jpath):
-        ctx.obligation("translator lockx ran on the current server/*.go", False, out)
-        ctx.proof_failures.append({"obligation": "translator: lockx failed on the current tree (package ./server does not type-check?)", "detail": out[-3000:]})
+        ctx.obligation("translator lockx ran on the current %s" % spec["pkg"], False, out)
+        ctx.proof_failures.append({"obligation": "translator: lockx failed on the current tree (package %s does not type-check?)" % spec["pkg"], "detail": out[-3000:]})
         return None
     table = json.load(open(jpath))
-    ctx.extra["lockx_s"] = round(time.time() - t, 1)
-    ok = not table["type_errors"] and len(table["entries"]) > 50
-    ctx.obligation("translator lockx ran on the current server/*.go (%d access sites, %d goroutine classes, %d type errors)" % (
+    ctx.extra["lockx_s"] = round(ctx.extra.get("lockx_s", 0) + time.time() - t, 1)
+    ok = not table["type_errors"] and len(table["entries"]) > spec["min"]
+    ctx.obligation("translator lockx ran on the current " + spec["pkg"] + " (%d access sites, %d goroutine classes, %d type errors)" % (
         len(table["entries"]), len(table["classes"]), len(table["type_errors"])), ok, str(table["type_errors"][:5]))
     if not ok:
         ctx.proof_failures.append({"obligation": "translator: incomplete type information or implausibly small table", "detail": str(table["type_errors"][:10])})
         return None
-    ctx.extra["table"] = {"entries": len(table["entries"]), "tracked_types": table["tracked_types"], "tracked_vars": table["tracked_vars"],
+    ctx.extra["table" + spec["tag"]] = {"entries": len(table["entries"]), "tracked_types": table["tracked_types"], "tracked_vars": table["tracked_vars"],
                           "entry_locks": table["entry_locks"], "coarse_functions": table["coarse_functions"], "notes": table["notes"],
                           "classes": [c["name"] + ("*" if c["single"] else "") for c in table["classes"]]}
     # Coq: the regenerated table, the offending pairs, then the theorems against it
@@ -174,10 +185,10 @@ def run_lockx(ctx, findings):
     rc, out2 = vlib.sh(coqc + [os.path.join(d, "Thm.v")], cwd=d, timeout=900)
     closed, axioms = vlib.parse_assumptions(out2)
     ctx.axioms |= axioms
-    ctx.obligation("C15_sched_race_free re-proved against the regenerated table (lockset_ok_except waived = true by vm_compute; %d recorded findings and %d justified orderings excluded)" % (len(known_waivers()), len(benign_waivers())),
+    ctx.obligation("C15%s_race_free re-proved against the regenerated table of %s (lockset_ok_except waived = true by vm_compute; %d recorded findings and %d justified orderings excluded)" % ("_sched" if server else "_llm", spec["pkg"], len(known_waivers()), len(benign_waivers())),
                    rc == 0 and not axioms, out2)
-    ctx.extra["bad_pairs"] = len(bad_all)
-    ctx.extra["bad_pairs_not_waived"] = len(bad_w)
+    ctx.extra["bad_pairs" + spec["tag"]] = len(bad_all)
+    ctx.extra["bad_pairs_not_waived" + spec["tag"]] = len(bad_w)
     # offending pairs -> findings keyed by (function, location)
     for i, j in bad_all:
         a, b = E[i], E[j]
@@ -189,6 +200,24 @@ def run_lockx(ctx, findings):
                                "classes": [c["classes"], o["classes"]]})
     if rc != 0 and not findings:
         ctx.proof_failures.append({"obligation": "C15_sched_race_free against the regenerated table", "detail": out2[-3000:]})
+    if not server:
+        # the dynamic harness builds its llmServer in an overlay shim (VerifNewServer) instead of NewLlamaServer (which
+        # starts a runner subprocess): the shim must set every field the real constructor sets
+        SHIM_FIELDS = {"port", "cmd", "status", "options", "modelPath", "llamaModel", "textProcessor", "estimate", "numParallel", "sem", "totalLayers", "gpus", "done"}
+        ctor = {e["loc"].split(".")[-1] for e in E if e["fn"] == "llm.NewLlamaServer" and e["kind"] == "W"}
+        extra = sorted(ctor - SHIM_FIELDS)
+        ctx.obligation("overlay shim llm.VerifNewServer initialises every llmServer field NewLlamaServer initialises (%d)" % len(ctor), bool(ctor) and not extra, str(extra))
+        if extra or not ctor:
+            ctx.mismatch("harness/overlay/llm/c15.go: NewLlamaServer now initialises llmServer fields the shim does not (%s): the dynamic runs no longer exercise the real object" % extra,
+                         {}, {"constructor_fields": sorted(ctor)})
+        try:
+            snap = json.load(open(spec["snapshot"]))
+            key = lambda e: (e["fn"], e["loc"], e["kind"], tuple(lockkey(l) for l in e["locks"]), e["init"])
+            s0, s1 = {key(e) for e in snap["entries"]}, {key(e) for e in E}
+            ctx.extra["table_vs_snapshot" + spec["tag"]] = {"added": sorted(map(str, s1 - s0))[:40], "removed": sorted(map(str, s0 - s1))[:40]}
+        except Exception as ex:  # noqa
+            ctx.extra["table_vs_snapshot" + spec["tag"]] = "no snapshot: %s" % ex
+        return table
     # torn-view preconditions of C15_ps_no_torn_view, read off the table
     need = []
     for e in E:
@@ -385,6 +414,12 @@ def gen_cases(ctx):
         w = [[x for i in range(n // 2) for x in (copy(rng.randrange(k), rng.choice(names)), show_name(rng.choice(names)), TAGS, delete(rng.choice(names)))] for _ in range(3)]
         w += [[x for i in range(n // 3) for x in (create(rng.choice(names), rng.randrange(k)), gen_name(rng.choice(names)), delete(rng.choice(names)))] for _ in range(2)]
         add("names-overlap", models=k, max_loaded=2, gpu="cpu", load_us=100, comp_us=50, workers=w)
+    # concurrent generate requests streamed by ONE real llmServer (parallel > 1) through the real handlers
+    for i in range(1 if q else 8):
+        par = rng.randint(2, 4)
+        size = rng.choice([20000, 100000, 300000])
+        w = [[gen(0, "5s", "please sid=w%dq%d n=%d size=%d thanks" % (j, x, rng.randint(6, 16), size + 13 * j + x)) for x in range(4)] for j in range(par + 2)] + [[PS] * 10]
+        add("real-llm-parallel", models=1, max_loaded=1, gpu="cpu", load_us=100, comp_us=rng.choice([0, 100]), workers=w, real_llm=True, parallel=par, timeout_ms=8000, deadline_ms=12000)
     # transfers (server/download.go, upload.go): fake registry + CDN; every pulled model shares one layer
     for _ in range(1 if q else 10):
         head = rng.choice([2000, 10000, 30000])
@@ -420,8 +455,10 @@ def parse_races(txt):
             frames = re.findall(r"\n\s+(\S+)\(\)\n\s+(\S+):(\d+)", blk)
             top = None
             for fn, file, line in frames:
-                if "/server/" in file and "zz_verif" not in file and "_test.go" not in file:
-                    top = {"fn": go_fn(fn), "file": file.split("/")[-1], "line": int(line)}
+                if file.startswith(vlib.REPO + "/") and "zz_verif" not in file and "_test.go" not in file:
+                    rel = file[len(vlib.REPO) + 1:]
+                    # positions of package server are bare file names in the table, other packages carry their directory
+                    top = {"fn": go_fn(fn), "file": rel.split("/")[-1] if rel.startswith("server/") and rel.count("/") == 1 else rel, "line": int(line)}
                     break
             sides.append({"kind": "W" if "rite" in m.group(2) else "R", "top": top, "first": [go_fn(f[0]) + " " + f[1].split("/")[-1] + ":" + f[2] for f in frames[:4]]})
         if len(sides) >= 2:
@@ -468,6 +505,84 @@ def classify_race(table, r):
     return out
 
 
+def absorb_races(ctx, table, findings, pattern):
+    files = sorted(glob.glob(pattern))
+    races = parse_races("".join(open(f, errors="replace").read() for f in files))
+    for f in files:
+        os.remove(f)
+    ctx.extra["race_reports"] = ctx.extra.get("race_reports", 0) + len(races)
+    untracked = {}
+    for r in races:
+        if all(s["top"] is None for s in r["sides"]) and all(any("zz_verif" in f or "_test.go" in f for f in s["first"]) for s in r["sides"]):
+            ctx.log("race inside the test harness itself (ignored):", r["sides"])
+            continue
+        keys = classify_race(table, r) if table else None
+        if keys:
+            for k in keys:
+                f = findings.setdefault(k, {"pairs": [], "races": [], "guard": guard_of(table, k[1])})
+                if len(f["races"]) < 2:
+                    f["races"].append(r["text"])
+        else:
+            fns = sorted((s["top"]["fn"] if s["top"] else s["first"][0].split(" ")[0]) for s in r["sides"])
+            untracked.setdefault(" | ".join(fns), r)
+    for k, r in untracked.items():
+        ctx.violation({"class": "data-race", "between": k}, "the race detector reports a data race between " + k, {"report": r["text"], "sides": r["sides"]})
+
+
+def llm_cases(ctx):
+    """concurrent calls on ONE real llmServer (fake runner endpoint): parallel 2-4, big chunks that fill the scanner buffer"""
+    rng = ctx.rng
+    out = []
+    for i in range(3 if ctx.quick() else 30):
+        par = rng.randint(2, 4)
+        out.append({"id": "llm-%d" % i, "parallel": par, "streams": par + rng.randint(1, 4), "chunks": rng.randint(8, 30),
+                    "size": rng.choice([2000, 60000, 200000, 400000]), "embeds": rng.randint(0, 3), "toks": rng.randint(0, 3), "pings": rng.randint(0, 2),
+                    "delay_us": rng.choice([0, 50, 300]), "rounds": 2})
+    return out
+
+
+def run_llm(ctx, table, findings, cases=None):
+    binp = ctx.go_build("c15llm", race=True, test_pkg="./llm")
+    if not binp:
+        return
+    cases = cases or llm_cases(ctx)
+    cpath, opath = os.path.join(ctx.tmp, "llmcases.jsonl"), os.path.join(ctx.tmp, "llmout.jsonl")
+    open(cpath, "w").write("".join(json.dumps(c) + "\n" for c in cases))
+    env = vlib.goenv()
+    env.update({"C15_CASES": cpath, "C15_OUT": opath, "GORACE": "log_path=%s halt_on_error=0" % os.path.join(ctx.tmp, "racellm")})
+    t = time.time()
+    try:
+        p = subprocess.run([binp, "-test.run", "^TestVerifC15LLM$", "-test.timeout", "10m"], env=env, cwd=ctx.tmp, stdout=subprocess.PIPE, stderr=subprocess.PIPE,
+                           text=True, errors="replace", timeout=900)
+        err, rc = p.stderr + p.stdout, p.returncode
+    except subprocess.TimeoutExpired as ex:
+        err, rc = "timeout " + str(ex), 124
+    ctx.extra["llm_dynamic_s"] = round(time.time() - t, 1)
+    obs = []
+    if os.path.exists(opath):
+        for line in open(opath):
+            try:
+                obs.append(json.loads(line))
+            except Exception:  # noqa
+                pass
+    if len(obs) < len(cases):
+        fatal = re.search(r"(fatal error: [^\n]*|panic: [^\n]*)", err)
+        where = re.findall(r"\n(github\.com/ollama/ollama/[^\s]+)\(", err)
+        where = [w for w in where if "zz_verif" not in w and "c15LLM" not in w]
+        sig = {"class": "crash", "what": re.sub(r"0x[0-9a-f]+", "", fatal.group(1)) if fatal else "process ended early rc=%s" % rc, "fn": go_fn(where[0]) if where else ""}
+        ctx.violation(sig, "concurrent calls on one llmServer crashed the process: %s" % sig["what"], {"case": cases[min(len(obs), len(cases) - 1)], "stderr_tail": err[-4000:]})
+    ctx.obligation("llmServer race harness answered every case (%d/%d)" % (len(obs), len(cases)), len(obs) == len(cases), err[-2000:])
+    absorb_races(ctx, table, findings, os.path.join(ctx.tmp, "racellm.*"))
+    for c, o in zip(cases, obs):
+        ctx.note_case({"id": o["id"], "calls": o["calls"], "nbad": o["nbad"], "inflight": o["max_in_flight"]}, o["max_in_flight"] >= 2, "llm-server-shared",
+                      sample={"case": c, "calls": o["calls"], "max_streams_in_flight": o["max_in_flight"]})
+        if o["nbad"]:
+            kind = "foreign-chunks" if any("not its own" in b for b in o["bad"]) else "call-failed"
+            ctx.violation({"class": "stream-integrity", "kind": kind},
+                          "concurrent requests on one runner did not each get their own result (%d of %d calls): %s" % (o["nbad"], o["calls"], o["bad"][0]),
+                          {"case": c, "failures": o["bad"], "how_to_replay": "python3 check.py C15 (llm-level cases are regenerated from the seed)"})
+
+
 def run_dynamic(ctx, table, findings, cases=None, repeat=1):
     binp = ctx.go_build("c15", race=True, test_pkg="./server")
     if not binp:
@@ -503,24 +618,7 @@ def run_dynamic(ctx, table, findings, cases=None, repeat=1):
         ctx.violation(sig, "the server process crashed while serving concurrent requests: %s" % sig["what"],
                       {"case": cases[min(len(obs) // repeat, len(cases) - 1)], "stderr_tail": err[-4000:], "cases_completed": len(obs)})
     ctx.obligation("race-detector harness answered every case (%d/%d)" % (len(obs), expected), len(obs) == expected, err[-2000:])
-    races = parse_races("".join(open(f, errors="replace").read() for f in sorted(glob.glob(os.path.join(ctx.tmp, "race.*")))))
-    ctx.extra["race_reports"] = len(races)
-    untracked = {}
-    for r in races:
-        if all(s["top"] is None for s in r["sides"]) and all(any("zz_verif" in f or "_test.go" in f for f in s["first"]) for s in r["sides"]):
-            ctx.log("race inside the test harness itself (ignored):", r["sides"])
-            continue
-        keys = classify_race(table, r) if table else None
-        if keys:
-            for k in keys:
-                f = findings.setdefault(k, {"pairs": [], "races": [], "guard": guard_of(table, k[1])})
-                if len(f["races"]) < 2:
-                    f["races"].append(r["text"])
-        else:
-            fns = sorted((s["top"]["fn"] if s["top"] else s["first"][0].split(" ")[0]) for s in r["sides"])
-            untracked.setdefault(" | ".join(fns), r)
-    for k, r in untracked.items():
-        ctx.violation({"class": "data-race", "between": k}, "the race detector reports a data race between " + k, {"report": r["text"], "sides": r["sides"]})
+    absorb_races(ctx, table, findings, os.path.join(ctx.tmp, "race.*"))
     stalls = 0
     names = {}
     for ci, o in enumerate(obs):
@@ -540,6 +638,13 @@ def run_dynamic(ctx, table, findings, cases=None, repeat=1):
             ctx.log("case", o.get("id"), "setup:", o["setup"])
         if o.get("skipped"):
             stalls += 1
+        bad = [r for r in o.get("resps") or [] if (r.get("integrity") or "").startswith("mismatch")]
+        if c.get("real_llm"):
+            ctx.count("streams-checked", sum(1 for r in o.get("resps") or [] if r.get("integrity")))
+        if bad:
+            ctx.violation({"class": "stream-integrity", "kind": "foreign-chunks"},
+                          "concurrent /api/generate requests served by one runner did not each get their own stream: %s" % bad[0]["integrity"],
+                          {"case": c, "responses": bad[:5]})
         # recovered panics (gin Recovery answers 500 and logs the panic)
         rec = o.get("recovery") or ""
         if "panic recovered" in rec or "[Recovery]" in rec:
@@ -607,9 +712,14 @@ def run(ctx, cases=None, repeat=1):
     ctx.proof_stage(["Race"], "Race/Properties_C15.v", extra_targets=["Race/PsView.v", "Race/Lockset.v", "Race/Tight.v"])
     findings = {}
     table = run_lockx(ctx, findings)
+    table_llm = run_lockx(ctx, findings, PKGS[1])
+    if table and table_llm:  # one vocabulary for the classification of race reports
+        table = dict(table, entries=table["entries"] + table_llm["entries"])
+    if cases is None:
+        run_llm(ctx, table, findings)
     run_dynamic(ctx, table, findings, cases, repeat)
     new = [k for k in findings if k not in set(benign_waivers()) and not vlib.match_known(ctx.known, {"class": CLASS, "loc": k[1], "fn": k[0]})]
-    if cases is None and (ctx.mismatches or [k for k in new if not findings[k]["races"]]) and not [v for v in ctx.violations if v["sig"].get("class") in ("panic", "crash", "torn-view")]:
+    if cases is None and ([m for m in ctx.mismatches if "overlay/llm" not in m["obligation"]] or [k for k in new if not findings[k]["races"]]) and not [v for v in ctx.violations if v["sig"].get("class") in ("panic", "crash", "torn-view")]:
         ctx.log("static side found something new: searching dynamically for a concrete schedule")
         run_dynamic(ctx, table, findings, hunt_cases(ctx, 6 if ctx.quick() else 30, [k[1] for k in new]), 1)
     report(ctx, findings)
